@@ -153,6 +153,7 @@ theorem C18_channel_sends : chanSends = [
     ("lnd/txwatcher.go", "addTxWatcher", "confChan", "plain"),
     ("lnd/txwatcher.go", "addTxWatcher", "errChan", "plain"),
     ("lnd/txwatcher.go", "addTxWatcher", "errChan", "plain"),
+    ("lwk/electrumtxwatcher.go", "StartWatchingTxs", "notify", "select-default"),
     ("peerswaprpc/server.go", "Stop", "p.sigchan", "plain"),
     ("peersync/message_bus.go", "publish", "ch", "select-default"),
     ("txwatcher/rpctxwatcher.go", "AddWaitForConfirmationTx", "newBlock", "plain"),
